@@ -1,5 +1,5 @@
 //@ fn gds21/src/read.rs :: impl<R> GdsParser<R> :: fn parse_struct
-//@   attr #[verifier::spinoff_prover] #[verifier::rlimit(60)]
+//@   attr #[verifier::spinoff_prover] #[verifier::rlimit(120)]
 //@   ret r
 //@   spec
 //|     requires pwf(*old(self)),
@@ -10,17 +10,45 @@
 //|         !(old(self).nxt is StructName) ==> r is Err,
 //|         // the elements are the ones the element-opening records announced, one per record, in order, each of the announced kind
 //|         r is Ok ==> exists|opens: Seq<GdsRecord>| #[trigger] kinds_ok(r->Ok_0.elems@, opens),
+//|         // stream tie: STRNAME, then for each element its opening record + what its parser consumed + ENDEL, then ENDSTR are exactly the records consumed
+//|         r is Ok ==> parse_struct_post(*old(self), *final(self), r->Ok_0),
+//@   before1 /strukt = match self\.next\(\)\? \{/
+//|         let ghost pre_name = *self;
 //@   before /^        loop \{$/
-//|         let ghost mut opens: Seq<GdsRecord> = Seq::empty();
+//|         let ghost mut opens: Seq<GdsRecord> = Seq::empty(); let ghost mut segs: Seq<Seq<Content>> = Seq::empty(); let ghost mut ended = false;
+//|         let ghost namec = cs(0x06, string_bytes(&old(self).nxt->StructName_0));
+//|         proof {
+//|             assert(content(old(self).nxt) == namec);
+//|             assert(tied_c(*old(self), *self, seq![namec] + flat(segs))) by {
+//|                 assert(flat(segs) =~= Seq::<Content>::empty());
+//|                 assert forall|k: int| #[trigger] at(*old(self), k) implies at(*self, k + 1) && (seq![namec] + flat(segs)) =~= pcs(*old(self)).subrange(k - 1, k) by { assert(at(pre_name, k)); }
+//|             }
+//|         }
 //@   loop 1
+//|             invariant_except_break !ended,
 //|             invariant pwf(*self), pm(*self) <= pm(*old(self)), self.rdr.source.data@ == old(self).rdr.source.data@, kinds_ok(elems@, opens),
+//|                 elems_seg(elems@, segs), namec == cs(0x06, string_bytes(&old(self).nxt->StructName_0)),
+//|                 tied_c(*old(self), *self, if ended { (seq![namec] + flat(segs)).push(c0(0x07)) } else { seq![namec] + flat(segs) }),
 //|                 old(self).nxt is StructName, strukt.name == Some(old(self).nxt->StructName_0), strukt.dates is Some,
 //|                 (forall|i: int| 0 <= i < 12 ==> dates12(strukt.dates->0)[i] == #[trigger] dates@[i] as int), strukt.elems is None,
+//|             ensures ended,
 //|             decreases pm(*self),
 //@   before /let r = self\.next\(\)\?;/
-//|             let ghost e0 = elems@; let ghost m0 = pm(*self);
+//|             let ghost e0 = elems@; let ghost m0 = pm(*self); let ghost pre0 = *self;
 //@   after /let r = self\.next\(\)\?;/
-//|             let ghost r0 = r;
+//|             let ghost r0 = r; let ghost pre = *self;
+//|             proof {
+//|                 if !(r0 is EndLib) {
+//|                     assert(tied_c(pre0, pre, seq![content(r0)])) by {
+//|                         assert forall|k: int| #[trigger] at(pre0, k) implies at(pre, k + 1) && seq![content(r0)] =~= pcs(pre0).subrange(k - 1, k) by { assert(content(r0) == pcs(pre0)[k - 1]); }
+//|                     }
+//|                 }
+//|                 if r0 is EndStruct {
+//|                     ended = true;
+//|                     lemma_tied_compose(*old(self), pre0, pre, seq![namec] + flat(segs), seq![content(r0)]);
+//|                     assert((seq![namec] + flat(segs)) + seq![content(r0)] =~= (seq![namec] + flat(segs)).push(c0(0x07)));
+//|                 }
+//|             }
 //@   loopend 1
 //|             proof {
 //|                 assert(pm(*self) < m0);
@@ -30,19 +58,40 @@
 //|                     GdsRecord::Boundary => elems@.last() is GdsBoundary, GdsRecord::Text => elems@.last() is GdsTextElem, GdsRecord::Path => elems@.last() is GdsPath,
 //|                     GdsRecord::Box => elems@.last() is GdsBox, GdsRecord::StructRef => elems@.last() is GdsStructRef, GdsRecord::ArrayRef => elems@.last() is GdsArrayRef,
 //|                     GdsRecord::Node => elems@.last() is GdsNode, _ => false });
+//|                 let e = elems@.last();
+//|                 assert(elem_post(pre, *self, e));
+//|                 lemma_elem_seg(pre, *self, e);
+//|                 assert(content(r0) == c0(opener_num(e)));
+//|                 let seg: Seq<Content> = seq![c0(opener_num(e))] + elem_cc(pre, *self, e).push(c0(0x11));
+//|                 assert(elem_seg(elems@.last(), seg));
+//|                 let segs1 = segs.push(seg);
+//|                 assert(elems_seg(elems@, segs1)) by { assert forall|i: int| 0 <= i < elems@.len() implies elem_seg(#[trigger] elems@[i], segs1[i]) by { if i < e0.len() { assert(elems@[i] == e0[i]); assert(segs1[i] == segs[i]); } } }
+//|                 assert(segs1.drop_last() =~= segs); assert(flat(segs1) == flat(segs) + seg);
+//|                 // position: the opening record, then what the element parser consumed
+//|                 let tail = seg.subrange(1, seg.len() as int);
+//|                 assert(seg =~= seq![content(r0)] + tail);
+//|                 assert(tied_c(pre, *self, tail));
+//|                 lemma_tied_compose(pre0, pre, *self, seq![content(r0)], tail);
+//|                 lemma_tied_compose(*old(self), pre0, *self, seq![namec] + flat(segs), seg);
+//|                 assert((seq![namec] + flat(segs)) + seg =~= seq![namec] + flat(segs1));
+//|                 segs = segs1;
 //|                 opens = opens.push(r0);
 //|                 assert(kinds_ok(elems@, opens)) by { assert forall|i: int| 0 <= i < elems@.len() implies kind_ok(#[trigger] elems@[i], opens[i]) by { if i < e0.len() { assert(elems@[i] == e0[i]); } } }
 //|             }
 //@   before1 /strukt = strukt\.elems\(elems\);|let strukt = strukt\.build\(\)\?;/
 //|         let ghost ef = elems@;
 //@   before /^        Ok\(strukt\)$/
-//|         proof { assert(strukt.elems@ == ef); assert(kinds_ok(strukt.elems@, opens)); }
+//|         proof { assert(strukt.elems@ == ef); assert(kinds_ok(strukt.elems@, opens)); assert(elems_seg(strukt.elems@, segs));
+//|             assert(tied_c(*old(self), *self, (seq![cs(0x06, string_bytes(&strukt.name))] + flat(segs)).push(c0(0x07))));
+//|             assert(parse_struct_post(*old(self), *self, strukt)); }
 //@ end
 //@ fn gds21/src/read.rs :: impl<R> GdsParser<R> :: fn parse_lib
 //@   attr #[verifier::spinoff_prover] #[verifier::rlimit(60)]
 //@   ret r
 //@   sub R5 /Vec::<GdsStruct>::with_capacity\(1024\)/ => Vec::<GdsStruct>::new()
-//@   sub R3 /Ok\(lib\.build\(\)\?\)/ => let vp_lib = lib.build()?; proof { assert(libb_fold(tr, lf, sf)); assert(vp_lib.structs@ == sf); assert(lib_fold(tr, sf, vp_lib)); } Ok(vp_lib)
+//@   sub R3 /(\/\/ Read the Header[^\n]*\n\s*)lib = match self\.next\(\)\? \{/ => \1let ghost vp_s0 = *self; lib = match self.next()? {
+//@   sub R3 /(\/\/ Read the begin-lib[^\n]*\n\s*)lib = match self\.next\(\)\? \{/ => \1let ghost vp_s1 = *self; lib = match self.next()? {
+//@   sub R3 /Ok\(lib\.build\(\)\?\)/ => let vp_lib = lib.build()?; proof { assert(libb_fold(tr, cc, lf, sf)); assert(vp_lib.structs@ == sf); assert(lib_fold(tr, cc, sf, vp_lib)); assert(hdr == seq![ci(0x00, seq![vp_lib.version as int]), ci(0x01, dates12(vp_lib.dates))]); assert(parse_lib_post(*old(self), *self, vp_lib)); } Ok(vp_lib)
 //@   spec
 //|     requires pwf(*old(self)),
 //|     ensures pwf(*final(self)), final(self).rdr.source.data@ == old(self).rdr.source.data@,
@@ -52,18 +101,38 @@
 //|         r is Ok ==> old(self).nxt is Header && r->Ok_0.version == old(self).nxt->Header_version,
 //|         !(old(self).nxt is Header) ==> r is Err,
 //|         // name and units are the LIBNAME / UNITS records' (the last of each), the structures are the parsed ones, in order
-//|         r is Ok ==> exists|tr: Seq<GdsRecord>, ss: Seq<GdsStruct>| #[trigger] lib_fold(tr, ss, r->Ok_0),
+//|         r is Ok ==> exists|tr: Seq<GdsRecord>, cc: Seq<Content>, ss: Seq<GdsStruct>| #[trigger] lib_fold(tr, cc, ss, r->Ok_0),
+//|         // stream tie (C03: "yields exactly the encoded library"): the records consumed are exactly the stream's, from its first record to ENDLIB
+//|         r is Ok ==> parse_lib_post(*old(self), *final(self), r->Ok_0),
 //@   before /^        loop \{$/
-//|         let ghost mut tr: Seq<GdsRecord> = Seq::empty();
+//|         let ghost mut tr: Seq<GdsRecord> = Seq::empty(); let ghost mut cc: Seq<Content> = Seq::empty();
+//|         let ghost hdr = seq![ci(0x00, seq![old(self).nxt->Header_version as int]), ci(0x01, dates12(lib.dates->0))];
+//|         proof {
+//|             assert(content(old(self).nxt) == hdr[0]);
+//|             assert(tied_c(*old(self), *self, hdr + cc)) by {
+//|                 assert(hdr + cc =~= hdr);
+//|                 assert forall|k: int| #[trigger] at(*old(self), k) implies at(*self, k + 2) && hdr =~= pcs(*old(self)).subrange(k - 1, k + 1) by {
+//|                     assert(at(vp_s0, k)); assert(at(vp_s1, k + 1)); assert(content(vp_s1.nxt) == pcs(*old(self))[k]);
+//|                     assert(content(vp_s1.nxt).1 =~= dates12(lib.dates->0));
+//|                 }
+//|             }
+//|         }
 //@   loop 1
-//|             invariant pwf(*self), self.rdr.source.data@ == old(self).rdr.source.data@, libb_fold(tr, lib, structs@),
+//|             invariant pwf(*self), self.rdr.source.data@ == old(self).rdr.source.data@, libb_fold(tr, cc, lib, structs@),
 //|                 old(self).nxt is Header, lib.version == Some(old(self).nxt->Header_version), lib.structs is None,
+//|                 hdr.len() == 2, hdr[0] == ci(0x00, seq![old(self).nxt->Header_version as int]), lib.dates is Some, hdr[1] == ci(0x01, dates12(lib.dates->0)),
+//|                 tied_c(*old(self), *self, hdr + cc),
 //|             ensures self.nxt is EndLib,
 //|             decreases pm(*self),
 //@   before /let r = self\.next\(\)\?;/
-//|             let ghost m0 = pm(*self); let ghost s0 = structs@; let ghost l0 = lib;
+//|             let ghost m0 = pm(*self); let ghost s0 = structs@; let ghost l0 = lib; let ghost pre0 = *self;
 //@   after /let r = self\.next\(\)\?;/
-//|             let ghost r0 = r;
+//|             let ghost r0 = r; let ghost pre = *self;
+//|             proof {
+//|                 if !(pre0.nxt is EndLib) {
+//|                     assert(tied_c(pre0, pre, seq![content(r0)])) by { assert forall|k: int| #[trigger] at(pre0, k) implies at(pre, k + 1) && seq![content(r0)] =~= pcs(pre0).subrange(k - 1, k) by { assert(content(r0) == pcs(pre0)[k - 1]); } }
+//|                 }
+//|             }
 //@   loopend 1
 //|             proof {
 //|                 assert(pm(*self) < m0);
@@ -76,8 +145,15 @@
 //|                 let tr1 = tr.push(r0);
 //|                 assert(tr1.drop_last() =~= tr); assert(tr1.last() == r0);
 //|                 assert(libb_step(l0, s0, r0, lib, structs@));
-//|                 assert(libb_fold(tr1, lib, structs@));
-//|                 tr = tr1;
+//|                 let sub: Seq<Content> = if r0 is BgnStruct { struct_sub(pre, *self, structs@.last()) } else { Seq::<Content>::empty() };
+//|                 if r0 is BgnStruct { lemma_struct_sub(pre, *self, structs@.last()); } else { assert(tied_c(pre, *self, sub)) by { assert forall|k: int| #[trigger] at(pre, k) implies at(*self, k + sub.len()) && sub =~= pcs(pre).subrange(k - 1, k - 1 + sub.len()) by { } } }
+//|                 let cc1 = cc.push(content(r0)) + sub;
+//|                 assert(libb_link(l0, s0, cc, sub, tr1.last(), lib, structs@, cc1));
+//|                 assert(libb_fold(tr1, cc1, lib, structs@));
+//|                 lemma_tied_compose(pre0, pre, *self, seq![content(r0)], sub);
+//|                 lemma_tied_compose(*old(self), pre0, *self, hdr + cc, seq![content(r0)] + sub);
+//|                 assert((hdr + cc) + (seq![content(r0)] + sub) =~= hdr + cc1);
+//|                 tr = tr1; cc = cc1;
 //|             }
 //@   before1 /lib = lib\.structs\(structs\);|let vp_lib = lib\.build\(\)\?;/
 //|         let ghost lf = lib; let ghost sf = structs@;
